@@ -103,6 +103,9 @@ enum Shape {
     Small,
     Big,
     Mix(usize),
+    /// j small entries, then big and small ones alternating (a big entry that no longer fits the
+    /// frame is followed by a small one that would)
+    Alt(usize),
     Dup,
     MaxThenBig,
     Named(usize),
@@ -116,6 +119,7 @@ impl Shape {
             Shape::Small => "s".into(),
             Shape::Big => "b".into(),
             Shape::Mix(j) => format!("m{j}"),
+            Shape::Alt(j) => format!("a{j}"),
             Shape::Dup => "d".into(),
             Shape::MaxThenBig => "x".into(),
             Shape::Named(i) => format!("v{i}"),
@@ -132,6 +136,7 @@ impl Shape {
             "x" => Shape::MaxThenBig,
             "A" => Shape::AllNamed,
             _ if s.starts_with('m') => Shape::Mix(num(&s[1..])?),
+            _ if s.starts_with('a') && s.len() > 1 && s[1..].chars().all(|c| c.is_ascii_digit()) => Shape::Alt(num(&s[1..])?),
             _ if s.starts_with('v') => Shape::Named(num(&s[1..])?),
             _ if s.starts_with('c') => Shape::CodeOnly(num(&s[1..])?),
             _ => return None,
@@ -259,6 +264,7 @@ fn build_entries(f: Family, shape: Shape, n: usize, addpath: bool) -> Result<Vec
         Shape::Small => v.extend((0..n).map(|i| PathNlri { path_id: pid(i), nlri: mkmsg::nlri_nth(f, i as u32, false) })),
         Shape::Big => v.extend((0..n).map(|i| PathNlri { path_id: pid(i), nlri: mkmsg::nlri_nth(f, i as u32, true) })),
         Shape::Mix(j) => v.extend((0..n).map(|i| PathNlri { path_id: pid(i), nlri: mkmsg::nlri_nth(f, i as u32, i >= j) })),
+        Shape::Alt(j) => v.extend((0..n).map(|i| PathNlri { path_id: pid(i), nlri: mkmsg::nlri_nth(f, i as u32, i >= j && (i - j) % 2 == 0) })),
         Shape::Dup => {
             if !addpath {
                 return Err("shape d needs add-path".into());
@@ -383,6 +389,14 @@ fn size_runs(f: Family, shape: Shape, addpath: bool) -> Vec<(usize, usize)> {
         Shape::Small => vec![(usize::MAX, s)],
         Shape::Big | Shape::Dup => vec![(usize::MAX, b)],
         Shape::Mix(j) => vec![(j, s), (usize::MAX, b)],
+        Shape::Alt(j) => {
+            let mut r = vec![(j, s)];
+            for _ in 0..40000 {
+                r.push((1, b));
+                r.push((1, s));
+            }
+            r
+        }
         Shape::MaxThenBig => vec![(1, mkmsg::nlri_wire_len(&mkmsg::nlris(f, NlriSize::Max)[0]) + ap), (usize::MAX, b)],
         _ => vec![],
     }
@@ -2090,13 +2104,14 @@ fn sub_align(fams: &[usize], xmsg_too: bool) -> Sub {
             for reach in [true, false] {
                 for j in 0..b.min(128) {
                     w.push(Work::Group(Group { fi, d, reach, shape: Shape::Mix(j), attr: GroupAttr::Fixed(AttrSpec::Block(13)), nh: 0, counts: CountSel::Fill }));
+                    w.push(Work::Group(Group { fi, d, reach, shape: Shape::Alt(j), attr: GroupAttr::Fixed(AttrSpec::Block(13)), nh: 0, counts: CountSel::Fill }));
                 }
             }
         }
     }
     Sub {
         name: "align",
-        rule: format!("families {fams:?} x {} outcomes x {{reach, unreach}} x j small entries followed by big ones for j in 0..min(big size, 128) (every alignment of the last entry against the frame limit) x counts k,k+1,k+2", if xmsg_too { "16" } else { "the 8 non-extended-message" }),
+        rule: format!("families {fams:?} x {} outcomes x {{reach, unreach}} x j small entries followed by big ones, and j small entries followed by alternating big / small ones, for j in 0..min(big size, 128) (every alignment of the last entry against the frame limit) x counts k,k+1,k+2", if xmsg_too { "16" } else { "the 8 non-extended-message" }),
         work: w,
     }
 }
